@@ -17,6 +17,8 @@
 //     fence produces an empty decision and leaves the state deep-equal;
 //   - ApplyMeta with an older (epoch, leader epoch) or the same fence and a
 //     different leader is rejected with ErrStaleMeta and leaves the state deep-equal;
+//     "older"/"same" are relative to the monitor's own fence: the fence and leader
+//     of the last ACCEPTED meta, whatever its status (a tombstone counts);
 //   - the committed watermark is a quorum watermark: when an ack or a stored
 //     result raises HW, the new HW is covered by MinISR ISR members according to
 //     the offsets the harness itself acknowledged (anchor: AdvanceHW).
@@ -95,8 +97,15 @@ type c06Model struct {
 	storeLEO uint64
 	acked    map[ch.NodeID]uint64 // highest offset the harness ever acknowledged per follower
 	usedOps  map[[3]uint64]bool   // (epoch, leader epoch, batch op) already proposed
-	nextMsg  uint64
-	nextOp   uint64
+
+	// the monitor's own fence: (epoch, leader epoch, leader) of the last ACCEPTED meta of any status
+	fenceSet    bool
+	fEpoch, fLE uint64
+	fLeader     ch.NodeID
+	lastDeleted bool      // the last accepted meta was a tombstone (StatusDeleted)
+	metaLog     []ch.Meta // metas offered so far (delayed replays)
+	nextMsg     uint64
+	nextOp      uint64
 }
 
 type c06Case struct {
@@ -115,6 +124,7 @@ type c06Case struct {
 	sawQuorumByReceipt bool
 	sawStaleResult     bool
 	sawStaleMeta       bool
+	sawTombstone       bool
 }
 
 // c06Clone makes a normalised deep copy (nil and empty slices/maps collapse),
@@ -475,124 +485,198 @@ func (c *c06Case) genMembership(leader ch.NodeID) (replicas, isr []ch.NodeID, mi
 	return
 }
 
+var c06StatusNames = map[ch.Status]string{ch.StatusCreating: "creating", ch.StatusActive: "active", ch.StatusDeleting: "deleting", ch.StatusDeleted: "deleted"}
+
+// fenceClass classifies an offered meta against the MONITOR's fence (the fence
+// of the last accepted meta, whatever its status), as the statement words it.
+func (m *c06Model) fenceClass(meta ch.Meta) string {
+	switch {
+	case !m.fenceSet:
+		return "first"
+	case meta.Epoch < m.fEpoch:
+		return "older-epoch"
+	case meta.Epoch == m.fEpoch && meta.LeaderEpoch < m.fLE:
+		return "older-leader-epoch"
+	case meta.Epoch == m.fEpoch && meta.LeaderEpoch == m.fLE && meta.Leader != m.fLeader:
+		return "same-fence-other-leader"
+	case meta.Epoch == m.fEpoch && meta.LeaderEpoch == m.fLE:
+		return "same-fence-same-leader"
+	default:
+		return "newer-fence"
+	}
+}
+
 func (c *c06Case) stepMeta() {
-	rng, s := c.rng, c.s
-	meta := ch.Meta{Key: c06Key, ID: c06ID, Epoch: s.Epoch, LeaderEpoch: s.LeaderEpoch, Leader: s.Leader, Status: ch.StatusActive}
+	rng, s, m := c.rng, c.s, c.m
+	// Everything is generated relative to the monitor's own fence (highest
+	// (epoch, leader epoch) of any ACCEPTED meta and that meta's leader), never
+	// relative to what the state happens to store.
+	meta := ch.Meta{Key: c06Key, ID: c06ID, Epoch: m.fEpoch, LeaderEpoch: m.fLE, Leader: m.fLeader, Status: ch.StatusActive}
 	pickLeader := func() ch.NodeID {
 		if rng.IntN(100) < 75 {
 			return c06Local
 		}
 		return c06Universe[1+rng.IntN(len(c06Universe)-1)]
 	}
+	kinds := []string{"fresh", "refresh", "stale-epoch", "stale-leader-epoch", "same-fence-leader-switch", "replay", "tombstone-higher", "tombstone-equal", "tombstone-lower", "bad-minisr", "bad-identity"}
+	weights := []int{30, 24, 8, 8, 8, 6, 5, 2, 2, 4, 3}
+	if m.lastDeleted {
+		weights = []int{24, 8, 14, 14, 12, 16, 3, 2, 2, 3, 2}
+	}
 	kind := "fresh"
-	if s.Epoch != 0 {
-		switch x := rng.IntN(100); {
-		case x < 34:
-			kind = "fresh"
-		case x < 62:
-			kind = "refresh"
-		case x < 72:
-			kind = "stale-epoch"
-		case x < 82:
-			kind = "stale-leader-epoch"
-		case x < 91:
-			kind = "same-fence-leader-switch"
-		case x < 96:
-			kind = "bad-minisr"
-		default:
-			kind = "bad-identity"
+	if m.fenceSet {
+		tot := 0
+		for _, w := range weights {
+			tot += w
+		}
+		x := rng.IntN(tot)
+		for i, w := range weights {
+			if x < w {
+				kind = kinds[i]
+				break
+			}
+			x -= w
 		}
 	}
-	switch kind {
-	case "fresh", "bad-minisr", "bad-identity":
-		if s.Epoch == 0 {
+	if kind == "replay" && len(m.metaLog) == 0 {
+		kind = "refresh"
+	}
+	if (kind == "stale-epoch" || kind == "tombstone-lower") && m.fEpoch == 0 && m.fLE == 0 {
+		kind = "refresh"
+	}
+	higher := func() {
+		if !m.fenceSet {
 			meta.Epoch = 1 + uint64(rng.IntN(3))
 			meta.LeaderEpoch = 1 + uint64(rng.IntN(3))
 		} else if rng.IntN(3) == 0 {
-			meta.Epoch = s.Epoch + 1
-			meta.LeaderEpoch = s.LeaderEpoch + uint64(rng.IntN(2))
-			if rng.IntN(4) == 0 && s.LeaderEpoch > 0 {
-				meta.LeaderEpoch = s.LeaderEpoch - 1 // allowed: a higher epoch dominates
+			meta.Epoch = m.fEpoch + 1
+			meta.LeaderEpoch = m.fLE + uint64(rng.IntN(2))
+			if rng.IntN(4) == 0 && m.fLE > 0 {
+				meta.LeaderEpoch = m.fLE - 1 // allowed: a higher epoch dominates
 			}
 		} else {
-			meta.LeaderEpoch = s.LeaderEpoch + 1
+			meta.LeaderEpoch = m.fLE + 1
 		}
 		meta.Leader = pickLeader()
-	case "refresh":
+	}
+	lower := func() {
+		if m.fEpoch > 0 && (m.fLE == 0 || rng.IntN(2) == 0) {
+			meta.Epoch = m.fEpoch - 1
+			meta.LeaderEpoch = m.fLE + uint64(rng.IntN(3))
+		} else {
+			meta.LeaderEpoch = m.fLE - 1
+		}
+		if rng.IntN(2) == 0 {
+			meta.Leader = pickLeader()
+		}
+	}
+	replayed := false
+	switch kind {
+	case "fresh", "bad-minisr", "bad-identity", "tombstone-higher":
+		higher()
+	case "refresh", "tombstone-equal":
 	case "stale-epoch":
-		meta.Epoch = s.Epoch - 1
-		meta.LeaderEpoch = s.LeaderEpoch + uint64(rng.IntN(3))
-		meta.Leader = pickLeader()
+		if m.fEpoch == 0 {
+			lower()
+		} else {
+			meta.Epoch = m.fEpoch - 1
+			meta.LeaderEpoch = m.fLE + uint64(rng.IntN(3))
+			meta.Leader = pickLeader()
+		}
 	case "stale-leader-epoch":
-		if s.LeaderEpoch == 0 {
+		if m.fLE == 0 {
 			kind = "refresh"
 		} else {
-			meta.LeaderEpoch = s.LeaderEpoch - 1
+			meta.LeaderEpoch = m.fLE - 1
 			if rng.IntN(2) == 0 {
 				meta.Leader = pickLeader()
 			}
 		}
+	case "tombstone-lower":
+		lower()
 	case "same-fence-leader-switch":
 		for {
 			meta.Leader = c06Universe[rng.IntN(len(c06Universe))]
-			if meta.Leader != s.Leader {
+			if meta.Leader != m.fLeader {
 				break
 			}
 		}
+	case "replay":
+		// a delayed copy of any meta offered earlier in this history (accepted or not)
+		meta = m.metaLog[rng.IntN(len(m.metaLog))]
+		replayed = true
 	}
-	meta.Replicas, meta.ISR, meta.MinISR = c.genMembership(meta.Leader)
-	if kind == "refresh" && rng.IntN(3) > 0 {
-		// mostly keep membership, only move MinISR / ISR
-		meta.Replicas = append([]ch.NodeID(nil), s.Replicas...)
-		if len(meta.Replicas) == 0 {
-			meta.Replicas = []ch.NodeID{meta.Leader}
+	if !replayed {
+		meta.Replicas, meta.ISR, meta.MinISR = c.genMembership(meta.Leader)
+		if kind == "refresh" && rng.IntN(3) > 0 {
+			// mostly keep membership, only move MinISR / ISR
+			meta.Replicas = append([]ch.NodeID(nil), s.Replicas...)
+			if len(meta.Replicas) == 0 {
+				meta.Replicas = []ch.NodeID{meta.Leader}
+			}
+			k := 1 + rng.IntN(len(meta.Replicas))
+			meta.ISR = c06Subset(rng, meta.Replicas, k)
+			meta.MinISR = 1 + rng.IntN(len(meta.ISR))
 		}
-		k := 1 + rng.IntN(len(meta.Replicas))
-		meta.ISR = c06Subset(rng, meta.Replicas, k)
-		meta.MinISR = 1 + rng.IntN(len(meta.ISR))
-	}
-	switch x := rng.IntN(100); {
-	case x < 88:
-		meta.Status = ch.StatusActive
-	case x < 93:
-		meta.Status = ch.StatusCreating
-	case x < 97:
-		meta.Status = ch.StatusDeleting
-	default:
-		meta.Status = ch.StatusDeleted
-	}
-	if kind == "refresh" && rng.IntN(5) > 0 {
-		meta.Status = s.Status
-	}
-	if kind == "bad-minisr" {
-		if rng.IntN(2) == 0 {
-			meta.MinISR = 0
-		} else {
-			meta.MinISR = len(meta.ISR) + 1
+		// every status value the type defines
+		switch x := rng.IntN(100); {
+		case x < 86:
+			meta.Status = ch.StatusActive
+		case x < 92:
+			meta.Status = ch.StatusCreating
+		case x < 97:
+			meta.Status = ch.StatusDeleting
+		default:
+			meta.Status = ch.StatusDeleted
 		}
-	}
-	if kind == "bad-identity" {
-		if rng.IntN(2) == 0 {
-			meta.Key = "1:other"
-		} else {
-			meta.ID = ch.ChannelID{ID: "other", Type: 1}
+		if kind == "refresh" && rng.IntN(5) > 0 && s.Status != 0 {
+			meta.Status = s.Status
 		}
-	}
-	if rng.IntN(6) == 0 {
-		meta.Key = "" // allowed: empty key is not compared
+		if strings.HasPrefix(kind, "tombstone") {
+			meta.Status = ch.StatusDeleted
+		}
+		if m.lastDeleted && !strings.HasPrefix(kind, "tombstone") && rng.IntN(4) > 0 {
+			meta.Status = ch.StatusActive // delayed ordinary metadata arriving after the tombstone
+		}
+		if kind == "bad-minisr" {
+			if rng.IntN(2) == 0 {
+				meta.MinISR = 0
+			} else {
+				meta.MinISR = len(meta.ISR) + 1
+			}
+		}
 		if kind == "bad-identity" {
-			meta.ID = ch.ChannelID{ID: "other", Type: 1}
+			if rng.IntN(2) == 0 {
+				meta.Key = "1:other"
+			} else {
+				meta.ID = ch.ChannelID{ID: "other", Type: 1}
+			}
 		}
+		if rng.IntN(6) == 0 {
+			meta.Key = "" // allowed: empty key is not compared
+			if kind == "bad-identity" {
+				meta.ID = ch.ChannelID{ID: "other", Type: 1}
+			}
+		}
+	} else if rng.IntN(3) == 0 {
+		meta.Status = []ch.Status{ch.StatusCreating, ch.StatusActive, ch.StatusDeleting, ch.StatusDeleted}[rng.IntN(4)]
+	}
+	if len(m.metaLog) < 64 {
+		m.metaLog = append(m.metaLog, meta)
 	}
 
-	// Classification by the statement, from the pre-state.
-	stale := meta.Epoch < s.Epoch || (meta.Epoch == s.Epoch && meta.LeaderEpoch < s.LeaderEpoch) ||
-		(meta.Epoch == s.Epoch && meta.LeaderEpoch == s.LeaderEpoch && meta.Leader != s.Leader)
+	// Classification by the statement, against the monitor's fence.
+	class := m.fenceClass(meta)
+	stale := class == "older-epoch" || class == "older-leader-epoch" || class == "same-fence-other-leader"
+	staleKind := map[string]string{"older-epoch": "stale-epoch", "older-leader-epoch": "stale-leader-epoch", "same-fence-other-leader": "same-fence-leader-switch"}[class]
+	afterTomb := m.lastDeleted
+	// Which appends the reactor answers itself when this meta is accepted
+	// (metadataWouldFenceState): fence from the monitor, role/status as observable.
 	nextRole := ch.RoleFollower
 	if meta.Leader == s.LocalNode {
 		nextRole = ch.RoleLeader
 	}
-	fenceChange := s.Epoch != meta.Epoch || s.LeaderEpoch != meta.LeaderEpoch || s.Leader != meta.Leader || s.Role != nextRole || s.Status != meta.Status
+	fenceChange := m.fEpoch != meta.Epoch || m.fLE != meta.LeaderEpoch || m.fLeader != meta.Leader || s.Role != nextRole || s.Status != meta.Status
 
 	full := c06Clone(s)
 	before := c06Snapshot(s)
@@ -601,7 +685,9 @@ func (c *c06Case) stepMeta() {
 		c.bad = true
 		return
 	}
+	stName := c06StatusNames[meta.Status]
 	c.r.Count("events.meta."+kind, 1)
+	c.r.Count("meta.status."+stName+".offered", 1)
 	code := "M+"
 	if d.Err != nil {
 		code = "M-"
@@ -609,20 +695,39 @@ func (c *c06Case) stepMeta() {
 	if stale {
 		code = "Ms"
 	}
-	c.logf(code, "meta %s E%d/LE%d leader=%d repl=%v isr=%v min=%d st=%d key=%q -> err=%v", kind, meta.Epoch, meta.LeaderEpoch, meta.Leader, meta.Replicas, meta.ISR, meta.MinISR, meta.Status, meta.Key, d.Err)
+	if meta.Status == ch.StatusDeleted {
+		code += "D"
+	}
+	if afterTomb {
+		code += "t"
+	}
+	c.logf(code, "meta %s class=%s E%d/LE%d leader=%d repl=%v isr=%v min=%d st=%s key=%q (monitor fence E%d/LE%d leader=%d tombstoned=%v) -> err=%v", kind, class, meta.Epoch, meta.LeaderEpoch, meta.Leader, meta.Replicas, meta.ISR, meta.MinISR, stName, meta.Key, m.fEpoch, m.fLE, m.fLeader, afterTomb, d.Err)
+	outcome := "accepted"
+	if d.Err != nil {
+		outcome = "rejected"
+	}
+	c.r.Count("meta.status."+stName+"."+outcome, 1)
+	if afterTomb {
+		c.r.Count("meta.after_tombstone."+class+"."+outcome, 1)
+		c.r.Count("meta.after_tombstone.status_"+stName+"."+outcome, 1)
+	}
 	if stale {
 		c.sawStaleMeta = true
 		c.r.Count("meta.stale_offered", 1)
+		sigKind := staleKind
+		if afterTomb {
+			sigKind = "after-deleted-meta"
+		}
 		if d.Err == nil {
-			c.violate("stale-meta-accepted:"+kind, fmt.Sprintf("state had E%d/LE%d leader=%d; meta E%d/LE%d leader=%d accepted", full.Epoch, full.LeaderEpoch, full.Leader, meta.Epoch, meta.LeaderEpoch, meta.Leader))
+			c.violate("stale-meta-accepted:"+sigKind, fmt.Sprintf("last accepted meta had fence E%d/LE%d leader=%d (tombstone=%v); meta E%d/LE%d leader=%d status=%s (%s) was accepted; state before: E%d/LE%d leader=%d status=%d", m.fEpoch, m.fLE, m.fLeader, afterTomb, meta.Epoch, meta.LeaderEpoch, meta.Leader, stName, class, full.Epoch, full.LeaderEpoch, full.Leader, full.Status))
 			return
 		}
 		if !errors.Is(d.Err, ch.ErrStaleMeta) {
-			c.violate("stale-meta-wrong-error:"+kind, fmt.Sprintf("err=%v", d.Err))
+			c.violate("stale-meta-wrong-error:"+sigKind, fmt.Sprintf("err=%v", d.Err))
 			return
 		}
 		if !reflect.DeepEqual(full, c06Clone(s)) {
-			c.violate("stale-meta-changed-state:"+kind, fmt.Sprintf("before: %+v", full))
+			c.violate("stale-meta-changed-state:"+sigKind, fmt.Sprintf("before: %+v", full))
 			return
 		}
 	}
@@ -641,14 +746,22 @@ func (c *c06Case) stepMeta() {
 			// The reactor answers every outstanding append with ErrStaleMeta
 			// before it applies a fencing meta (clearFencedRuntimeWork); from
 			// here on those appends are answered.
-			if len(c.m.pending) > 0 {
-				c.r.Count("meta.fence_cleared_waiters", len(c.m.pending))
+			if len(m.pending) > 0 {
+				c.r.Count("meta.fence_cleared_waiters", len(m.pending))
 			}
-			for op := range c.m.pending {
-				delete(c.m.pending, op)
-				c.m.fate[op] = "answered-by-fence-change"
+			for op := range m.pending {
+				delete(m.pending, op)
+				m.fate[op] = "answered-by-fence-change"
 			}
-			c.m.inflight = nil
+			m.inflight = nil
+		}
+		// the monitor's fence: highest accepted (a stale accept was reported above and ended the case)
+		m.fenceSet = true
+		m.fEpoch, m.fLE, m.fLeader = meta.Epoch, meta.LeaderEpoch, meta.Leader
+		m.lastDeleted = meta.Status == ch.StatusDeleted
+		if m.lastDeleted {
+			c.sawTombstone = true
+			c.r.Count("meta.tombstones_accepted."+class, 1)
 		}
 	}
 	c.afterStep(before)
@@ -1208,11 +1321,12 @@ func c06RunCase(r *verifkit.Run, idx int, rng *rand.Rand) {
 	c.logf("I", "init gen=%d LEO=%d HW=%d CP=%d", gen, s.LEO, s.HW, s.CheckpointHW)
 	for c.step = 1; c.step <= n && !c.bad; c.step++ {
 		r.Eval(1)
-		if s.Epoch == 0 {
+		if !c.m.fenceSet {
 			c.stepMeta()
 			continue
 		}
 		x := rng.IntN(100)
+		tomb, ncodes := c.m.lastDeleted, len(c.codes)
 		if (s.Role != ch.RoleLeader || !s.CommitReady) && x >= 11 && x < 53 && rng.IntN(2) == 0 {
 			x = 0 // a non-leader / not-ready replica mostly waits for the next metadata
 		}
@@ -1246,6 +1360,11 @@ func c06RunCase(r *verifkit.Run, idx int, rng *rand.Rand) {
 		default:
 			c.stepCheckpoint()
 		}
+		if tomb && len(c.codes) > ncodes {
+			// what was driven at a deleted channel (the monitor keeps judging every clause there)
+			name := map[byte]string{'M': "meta", 'P': "propose", 'R': "stored_result", 'Q': "quorum_receipt", 'H': "store_exec_held", 'A': "ack", 'C': "cancel", 'B': "abort", 'K': "checkpoint"}[c.codes[ncodes][0]]
+			r.Count("events.after_tombstone."+name, 1)
+		}
 	}
 	r.Max("max_events_per_sequence", len(c.codes))
 	if c.bad {
@@ -1267,12 +1386,15 @@ func c06RunCase(r *verifkit.Run, idx int, rng *rand.Rand) {
 		}
 	}
 	r.Count("sequences.total", 1)
+	if c.sawTombstone {
+		r.Count("sequences.with_accepted_tombstone", 1)
+	}
 }
 
 func TestVerifC06Machine(t *testing.T) {
 	r := verifkit.Start(t, "C06", "machine")
 	defer r.Finish()
-	r.SetRule("Each case is one PRNG sequence of 25-70 transitions on a fresh machine.ChannelState (local node 1, random store-loaded watermarks): ApplyMeta (fresh / same-fence refresh / older epoch / older leader epoch / same-fence leader switch / bad MinISR / bad identity; role flips, ISR and MinISR changes, all statuses), ProposeAppend and ProposeAppendBatch (local+quorum+default mode waiters, colliding op ids, duplicate/empty/no waiters), store-model execution of emitted tasks delivered as ApplyAppendStored or ApplyQuorumCommitted (immediately, late, duplicated, errors, malformed receipts, fabricated results whose fence differs from the inflight fence in exactly one field), ApplyFollowerAck from ISR/replica/foreign nodes with offsets <= LEO, CancelAppendWaiter, AbortAppendBatchProposal, checkpoint publication. The monitor runs after every transition. A sequence is non-trivial iff it contains a quorum-mode waiter answered OK by a LATER ack or by a quorum receipt, AND a delivered result with a non-matching fence, AND a stale meta offer; distinct = distinct sequence of (event kind, outcome) codes.")
+	r.SetRule("Each case is one PRNG sequence of 25-70 transitions on a fresh machine.ChannelState (local node 1, random store-loaded watermarks): ApplyMeta (newer fence / same-fence refresh / older epoch / older leader epoch / same-fence leader switch / delayed replay of any earlier offered meta / tombstones (StatusDeleted) with higher, equal and lower fence / bad MinISR / bad identity; role flips, ISR and MinISR changes; every status creating, active, deleting, deleted; staleness is judged against the monitor's own fence = fence and leader of the last ACCEPTED meta of any status, and all other events keep running at a deleted channel), ProposeAppend and ProposeAppendBatch (local+quorum+default mode waiters, colliding op ids, duplicate/empty/no waiters), store-model execution of emitted tasks delivered as ApplyAppendStored or ApplyQuorumCommitted (immediately, late, duplicated, errors, malformed receipts, fabricated results whose fence differs from the inflight fence in exactly one field), ApplyFollowerAck from ISR/replica/foreign nodes with offsets <= LEO, CancelAppendWaiter, AbortAppendBatchProposal, checkpoint publication. The monitor runs after every transition. A sequence is non-trivial iff it contains a quorum-mode waiter answered OK by a LATER ack or by a quorum receipt, AND a delivered result with a non-matching fence, AND a stale meta offer; distinct = distinct sequence of (event kind, outcome) codes.")
 	r.Assume("follower acks carry offsets <= LEO (documented machine precondition, enforced by the reactor; unit 'service' attacks that guard)")
 	r.Assume("stored offsets come from a store model: base = store LEO + 1, last = base + n - 1; a batch op id is proposed at most once per (epoch, leader epoch)")
 	r.Assume("an accepted meta that changes (epoch, leader epoch, leader, role, status) answers all outstanding appends (the reactor fails them with ErrStaleMeta before applying it), so a later machine reply for one of them is a second answer")
